@@ -27,7 +27,7 @@ TRUSTED = {
           'exec_allows_no_decreases_clause is left anywhere',
     'A9': 'A9 restated callee contracts: Verus runs one file per unit, so a callee proved in another unit appears in the caller\'s unit as an external_body function (or an axiom) whose '
           'contract is restated; every such link is listed and audited in DESIGN.md §2.8 (the word pipeline into U11, break_apart into U6, Word::from, the line breakers and the dispatch, '
-          'split_points into U14, display_width / strip / the ANSI skipper from U3, wrap\'s shortcut into U12, the ASCII word finder and first-fit into U10, smawk from U24 into U2). '
+          'split_points into U14, display_width / strip / the ANSI skipper from U3, wrap\'s shortcut into U12, the ASCII word finder and first-fit into U10, smawk from U24 into U2, indent from U8 into U9\'s theorem c18_dedent_of_indent). '
           'Each link that concerns textwrap code is also an executable BEC contract on the real callee (C11/C12/C06/C10 contracts)',
     'A10': 'A10 (discharged) char-boundary safety of &line[idx..idx+len] in wrap\'s reassembly is now PROVED in U11 (the seam between valid UTF-8 pieces is a char boundary), '
            'and String::from_utf8(..).unwrap() in fill_inplace is proved not to fail in U10 (overwriting an ASCII byte by an ASCII byte keeps UTF-8 validity)',
@@ -120,7 +120,7 @@ PROPS = {
         'trusted': ['A1', 'A2', 'A3', 'A4', 'A5', 'A6', 'A7', 'A8', 'A9', 'A10', 'A11', 'A12', 'A13', 'A14', 'A15', 'A16', 'A17', 'R15', 'R16', 'R17', 'R18', 'R19'],
         'proved_part': 'Verus: absence of panics (index/slice bounds incl. char boundaries in NonEmptyLines, arithmetic overflow, unwrap on None, callee preconditions) and '
                        'termination for wrap_first_fit, wrap_optimal_fit (Err only from the is_infinite test), skip_ansi_escape_sequence, display_width, NonEmptyLines::next, '
-                       'wrap_columns (A11), Word::from, break_words, indent, dedent, fill_inplace (incl. from_utf8().unwrap()), wrap, wrap_single_line, wrap_single_line_slow_path (incl. char-boundary safety of its slices), fill_slow_path, unfill (incl. the #466 class of slice panics), WordSplitter::split_points, WrapAlgorithm::wrap, strip_ansi_escape_sequences, find_words_ascii_space, find_words_unicode_break_properties, split_words and Word::break_apart (closures, R16), fill, refill, Options::new / from / the setters, LineEnding::as_str, LineNumbers::get (R17), and the two functions of the smawk crate optimal-fit runs (online_column_minima, smawk_inner; U24).',
+                       'wrap_columns (A11), Word::from, break_words, WordSeparator::find_words (the dispatch, U13), indent, dedent, fill_inplace (incl. from_utf8().unwrap()), wrap, wrap_single_line, wrap_single_line_slow_path (incl. char-boundary safety of its slices), fill_slow_path, unfill (incl. the #466 class of slice panics), WordSplitter::split_points, WrapAlgorithm::wrap, strip_ansi_escape_sequences, find_words_ascii_space, find_words_unicode_break_properties, split_words and Word::break_apart (closures, R16), fill, refill, Options::new / from / the setters, LineEnding::as_str, LineNumbers::get (R17), and the two functions of the smawk crate optimal-fit runs (online_column_minima, smawk_inner; U24).',
         'bounded_part': 'BEC: every public function under catch_unwind with a hang watchdog over the adversarial alphabet, widths {0,1,2,7,usize::MAX}, all option combinations, '
                         'extreme penalties; only here: "optimal-fit never reports an overflow error for usize-valued widths and penalties" (A14: float magnitudes), the inside of the dependencies '
                         '(unicode-linebreak, unicode-width tables; smawk is verified in U24), the call through a WordSeparator::Custom function pointer (the dispatch WordSeparator::find_words itself is under contract in U13) and the thin constructors.',
@@ -214,7 +214,7 @@ PROPS = {
                        '\'-\' or a soft hyphen; each boundary is the byte offset of a position of the original line that is not inside an escape sequence and whose stripped '
                        'prefix has exactly the opportunity\'s length.',
         'bounded_part': 'BEC: the real unicode-linebreak tables behind the assumed shape A13 (A13.linebreaks.shape), and every clause of both halves again by execution on the real '
-                        'WordSeparator::find_words (whose three-arm dispatch is not under contract).',
+                        'WordSeparator::find_words (the dispatcher itself is under contract in U13; only the call through a Custom function pointer is outside Verus).',
         'explanation': 'Proof: every clause of the statement is a discharged Verus obligation on the extracted functions, relative to A13 (the crate\'s linebreaks() is taken as '
                        '"the UAX #14 opportunities", with only its shape assumed) and the std iterator behaviour of from_fn/filter/find/collect (A4, R16).',
     },
@@ -288,7 +288,7 @@ PROPS = {
                        'whitespace characters that is a prefix of every line containing a non-whitespace character (is_margin: common, and no longer common one exists); the '
                        'result is every line with text without its first mlen characters, every whitespace-only line empty, one output line per input line (each '
                        'followed by a newline), the final newline removed exactly when the input does not end in one. `str::lines` and `char::is_whitespace` are abstract (A4). '
-                       'The two "therefore" corollaries are theorems over that postcondition (U9, with the one std fact that str::lines is lines_c — the \'\\n\'-separated pieces, a terminated piece '
+                       'The two "therefore" corollaries are theorems over that postcondition (U9, with two std facts: \'\\r\' is whitespace (cr_is_ws), and str::lines is lines_c — the \'\\n\'-separated pieces, a terminated piece '
                        'without one \'\\r\' before its \'\\n\', the unterminated last piece as it is and dropped when empty —, checked on the real str::lines by the bounded contract A4.std_models): c18_dedent_idempotent_cr — for every text '
                        'outside known finding KF4\'s input class (kf4_free: no line that is terminated by a line break and has text ends in a carriage return; carriage returns allowed otherwise), whatever the contract '
                        'allows as dedent(s) and as dedent of that are equal (after the longest common margin is removed no common margin is left: second_margin_empty); c18_dedent_of_indent — with indent(s, p) in the closed form U8 proves of it (indent_spec), for every whitespace prefix p '
